@@ -194,6 +194,11 @@ def main_for(prop, run, argv=None):
             ctx.violation(dict(clause="observation-crashed: what the implementation did on this case could not be interpreted", where=fn, exception=last.split(":")[0][:80]),
                           case=dict(case=item, traceback=tb[-1500:]))
             crashed = True
+        elif isinstance(ex, Machinery) and ctx.violations:
+            # a guard of the check (too few successful runs, ...) fired AFTER violations had been recorded: the violations are the finding,
+            # the guard only says that the run was not representative
+            print("NOTE %s (%d violation(s) were recorded before this guard fired)" % (str(ex)[:300], len(ctx.violations)))
+            crashed = True
         else:
             traceback.print_exc()
             print("MACHINERY-FAILURE property=%s %s: %s" % (prop, type(ex).__name__, str(ex)[:2000]))
